@@ -4,7 +4,8 @@
    Run from the output directory (see bin/setup); not part of the proof build. *)
 Require Extraction.
 Require Import ExtrOcamlBasic.
-From JsonSyntax Require Import Base.Prelude Base.Value Model.Kind Spec.KindSpec.
+From JsonSyntax Require Import Base.Prelude Base.Value Base.Unicode Model.Kind Spec.KindSpec
+  Model.Parser Model.EntryPoints Model.Compare Model.Object Model.CodeMapNav.
 
 Extraction Language OCaml.
 Set Extraction KeepSingleton.
@@ -17,4 +18,18 @@ Extraction "model.ml"
   mask ks_none ks_all ks_from ks_or ks_and ks_or_kind ks_and_kind kind_or_ks kind_and_ks
   kind_or kind_and ks_len ks_is_empty ks_iter ks_iter_rev run_steps kind_name
   ks_display ks_disjunction ks_conjunction is_kind
-  members render_spec comma_join deque_run.
+  members render_spec comma_join deque_run
+  (* parser family *)
+  utf8_encode_all utf8_decode utf16_units is_scalar
+  strict flexible chars parse_with parse parse_utf8_with parse_utf8 parse_infallible_utf8
+  parse_utf8_infallible_with parse_str_with parse_str from_str parse_slice_with parse_slice
+  (* comparison *)
+  value_cmp value_eq entry_cmp entries_cmp hash_stream str_cmp
+  (* objects *)
+  empty_obj from_vec push push_front remove_at contains_key index_of redundant_index_of indexes_of
+  get_entries_with_index get_entries get get_with_index get_unique get_unique_entry set_value_at
+  insert insert_front remove remove_unique sort get_or_insert_with extend from_iter dump
+  im_contains_duplicate_keys
+  (* navigation *)
+  traverse traverse_leftover count_where value_volume get_fragment array_iter_mapped
+  object_iter_mapped get_mapped_entries_with_index try_from_json_at fragment_count.
